@@ -172,3 +172,14 @@ func FirstIncludeLine(p *Project, file string) int {
 	}
 	return 0
 }
+
+// LineText returns the text of the 1-based line n of a file with uniform line endings ("" beyond the end).
+func LineText(b []byte, n int) string {
+	s := strings.ReplaceAll(string(b), "\r\n", "\n")
+	s = strings.ReplaceAll(s, "\r", "\n")
+	ll := strings.Split(s, "\n")
+	if n < 1 || n > len(ll) {
+		return ""
+	}
+	return ll[n-1]
+}
